@@ -310,7 +310,7 @@ End ReadBack.
 
 (* ================================================================== values at R *)
 Local Notation RO := ROps.
-Definition maskmul (v : R) (m : bool) : R := mul RO v (@tofloat RO (negb m)).
+Definition maskmul (v : T RO) (m : bool) : T RO := mul RO v (@tofloat RO (negb m)).
 
 Lemma tobool_tofloat b : @tobool RO (@tofloat RO b) = b.
 Proof.
@@ -322,12 +322,12 @@ Proof. unfold maskmul, tofloat, one. cbn. lra. Qed.
 Lemma Reqb_refl x : Reqb x x = true.
 Proof. unfold Reqb. destruct (Req_EM_T x x); [reflexivity|contradiction]. Qed.
 
-Lemma slim_row_maskmul (m : list bool) : forall v : list R, @slim_row RO m (map2 maskmul v m) = @slim_row RO m v.
+Lemma slim_row_maskmul (m : list bool) : forall v : list (T RO), @slim_row RO m (map2 maskmul v m) = @slim_row RO m v.
 Proof.
   induction m as [|b m IH]; intros [|x v]; try reflexivity.
   cbn [map2 slim_row]. destruct b; [apply IH|]. now rewrite maskmul_false, IH.
 Qed.
-Lemma native_row_slim_row (m : list bool) : forall (v rest : list R), length v = length m ->
+Lemma native_row_slim_row (m : list bool) : forall (v rest : list (T RO)), length v = length m ->
   @native_row RO m (@slim_row RO m v ++ rest) = (@zero_fill_row RO m v, rest).
 Proof.
   induction m as [|b m IH]; intros [|x v] rest Hl; cbn in Hl; try discriminate; [reflexivity|].
@@ -335,7 +335,7 @@ Proof.
   - rewrite (IH v rest Hl). reflexivity.
   - cbn [app]. rewrite (IH v rest Hl). reflexivity.
 Qed.
-Lemma native_from_slim (m : list (list bool)) : forall (v : list (list R)) (rest : list R), same_len2 v m = true ->
+Lemma native_from_slim (m : list (list bool)) : forall (v : list (list (T RO))) (rest : list (T RO)), same_len2 v m = true ->
   @native_from RO m (concat (map2 (@slim_row RO) m v) ++ rest) = @zero_fill RO m v.
 Proof.
   induction m as [|r m IH]; intros [|x v] rest H; cbn in H; try discriminate; [reflexivity|].
@@ -343,7 +343,7 @@ Proof.
   cbn [map2 concat native_from zero_fill]. rewrite <- app_assoc, (native_row_slim_row r x _ H1).
   now rewrite (IH v rest H2).
 Qed.
-Lemma map2_maskmul_slim (m : list (list bool)) : forall v : list (list R),
+Lemma map2_maskmul_slim (m : list (list bool)) : forall v : list (list (T RO)),
   map2 (@slim_row RO) m (map2 (map2 maskmul) v m) = map2 (@slim_row RO) m v.
 Proof.
   induction m as [|r m IH]; intros [|x v]; try reflexivity.
@@ -354,9 +354,9 @@ Lemma same_len2_all_false {A} (v : list (list A)) : same_len2 v (all_false2 v) =
 Proof.
   induction v as [|r v IH]; [reflexivity|]. cbn. rewrite map_length, Nat.eqb_refl. exact IH.
 Qed.
-Lemma zero_fill_row_all_false (r : list R) : @zero_fill_row RO (all_false1 r) r = r.
+Lemma zero_fill_row_all_false (r : list (T RO)) : @zero_fill_row RO (all_false1 r) r = r.
 Proof. induction r as [|x r IH]; [reflexivity|]. cbn. f_equal. exact IH. Qed.
-Lemma zero_fill_all_false (v : list (list R)) : @zero_fill RO (all_false2 v) v = v.
+Lemma zero_fill_all_false (v : list (list (T RO))) : @zero_fill RO (all_false2 v) v = v.
 Proof.
   induction v as [|r v IH]; [reflexivity|]. cbn [all_false2 map zero_fill map2].
   f_equal; [apply zero_fill_row_all_false|exact IH].
@@ -528,4 +528,115 @@ Proof.
   cbn [fbind]. split.
   - destruct inv; [now rewrite negtobool_tofloat_rows|now rewrite tobool_tofloat_rows].
   - destruct (m_scales m). apply pixel_scale_header_roundtrip.
+Qed.
+
+(* ---- one dimension ---- *)
+Lemma slim_row_length_le (m : list bool) : forall v : list (T RO), (length (@slim_row RO m v) <= length m)%nat.
+Proof.
+  induction m as [|b m IH]; intros [|x v]; cbn [slim_row length]; try lia.
+  destruct b; cbn [length]; specialize (IH v); lia.
+Qed.
+Lemma slim_row_full (m : list bool) : forall v : list (T RO), length v = length m ->
+  length (@slim_row RO m v) = length m ->
+  @slim_row RO m v = v /\ @zero_fill_row RO m v = v /\ map2 maskmul v m = v.
+Proof.
+  induction m as [|b m IH]; intros [|x v] Hl Hs; cbn in Hl; try discriminate; [repeat split|].
+  injection Hl as Hl. cbn [slim_row] in *. destruct b.
+  - pose proof (slim_row_length_le m v). cbn [length] in Hs. lia.
+  - cbn [length] in Hs. injection Hs as Hs. destruct (IH v Hl Hs) as [H1 [H2 H3]].
+    cbn [zero_fill_row map2]. unfold zero_fill_row in H2. rewrite H1, H2, H3, maskmul_false. repeat split.
+Qed.
+Lemma convert_1d_slim (vals : list (T RO)) mask : length vals = length mask ->
+  @convert_array_1d RO vals mask false = @slim_row RO mask vals.
+Proof. intros H. unfold convert_array_1d. cbv zeta. apply Nat.eqb_eq in H. rewrite H. reflexivity. Qed.
+Lemma convert_1d_native (vals : list (T RO)) mask : length vals = length mask ->
+  @convert_array_1d RO (@slim_row RO mask vals) mask true = @zero_fill_row RO mask vals.
+Proof.
+  intros H. unfold convert_array_1d. cbv zeta.
+  destruct (Nat.eqb (length (@slim_row RO mask vals)) (length mask)) eqn:E; cbn [Bool.eqb negb].
+  - apply Nat.eqb_eq in E. destruct (slim_row_full mask vals H E) as [H1 [H2 H3]].
+    rewrite H1, H2. exact H3.
+  - rewrite <- (app_nil_r (slim_row mask vals)), (native_row_slim_row mask vals [] H). reflexivity.
+Qed.
+Theorem Array1D_new_native (vals : list (T RO)) mask sc : length vals = length mask ->
+  Array1D_native (@Array1D_new RO vals mask sc) = @zero_fill_row RO mask vals
+  /\ b_mask (@Array1D_new RO vals mask sc) = mask /\ b_scale (@Array1D_new RO vals mask sc) = sc.
+Proof.
+  intros H. unfold Array1D_native, Array1D_new. cbn [b_vals b_mask b_scale].
+  rewrite (convert_1d_slim vals mask H), (convert_1d_native vals mask H). auto.
+Qed.
+Theorem Array1D_no_mask_native (vals : list (T RO)) sc :
+  Array1D_native (@Array1D_no_mask RO vals sc) = vals
+  /\ b_mask (@Array1D_no_mask RO vals sc) = all_false1 vals /\ b_scale (@Array1D_no_mask RO vals sc) = sc.
+Proof.
+  unfold Array1D_no_mask. destruct (Array1D_new_native vals (all_false1 vals) sc) as [H1 [H2 H3]].
+  - unfold all_false1. now rewrite map_length.
+  - fold (all_false1 vals). rewrite H1, zero_fill_row_all_false. auto.
+Qed.
+Theorem Array1D_hdu_roundtrip flip (a : @array1d RO) :
+  exists a', Array1D_from_primary_hdu (Array1D_hdu_for_output flip a) = FOk a'
+    /\ Array1D_native a' = Array1D_native a
+    /\ b_mask a' = all_false1 (Array1D_native a)
+    /\ b_scale a' = b_scale a.
+Proof.
+  unfold Array1D_from_primary_hdu, Array1D_hdu_for_output, hdu_for_output_from_1d. cbn [hhdr hdata].
+  rewrite pixel_scale_header_1d. cbn [hlookup hkey_eqb].
+  eexists. split; [reflexivity|]. apply Array1D_no_mask_native.
+Qed.
+Lemma via_fits_written_1d {V X} (fs : fitsfs V X) p (arr : list X) hd k :
+  lookup (files fs) p = Some [hdu_for_output_from_1d arr hd] ->
+  numpy_array_1d_via_fits_from fs p k = (if sole_index k then FOk arr else FRaise IndexErr)
+  /\ header_obj_from fs p k = (if sole_index k then FOk hd else FRaise IndexErr).
+Proof.
+  intros H. unfold numpy_array_1d_via_fits_from, header_obj_from. rewrite (hdu_at_written _ _ _ k H).
+  destruct (sole_index k); cbn [fbind]; split; reflexivity.
+Qed.
+Theorem Array1D_output_is_to_fits flip (fs : fitsfs (T RO) (T RO)) (a : @array1d RO) p ow :
+  Array1D_output_to_fits fs a p ow = to_fits fs p ow [Array1D_hdu_for_output flip a].
+Proof. reflexivity. Qed.
+Theorem Array1D_file_roundtrip (fs : fitsfs (T RO) (T RO)) (a : @array1d RO) p ow sc k :
+  fs_wf fs = true -> target_ok fs p = true -> fresh_or_overwrite fs p ow = true -> sole_index k = true ->
+  exists fs' a' hs hh,
+    Array1D_output_to_fits fs a p ow = (fs', None)
+    /\ Array1D_from_fits fs' p sc k = FOk (a', hs, hh)
+    /\ Array1D_native a' = Array1D_native a
+    /\ b_mask a' = all_false1 (Array1D_native a)
+    /\ b_scale a' = sc
+    /\ hlookup PIXSCALE hs = Some (b_scale a) /\ hlookup PIXSCALE hh = Some (b_scale a).
+Proof.
+  intros Hwf Hok Hfo Hk. rewrite (Array1D_output_is_to_fits false).
+  destruct (to_fits_success fs p ow [Array1D_hdu_for_output false a] Hwf Hok Hfo) as [fs' [Hw [Hl _]]].
+  unfold Array1D_hdu_for_output in Hl.
+  exists fs'. do 3 eexists. split; [exact Hw|]. split.
+  - unfold Array1D_from_fits.
+    destruct (via_fits_written_1d fs' p _ _ k Hl) as [-> ->].
+    destruct (via_fits_written_1d fs' p _ _ 0%Z Hl) as [_ ->].
+    rewrite Hk. cbn [sole_index Z.eqb orb fbind]. reflexivity.
+  - destruct (Array1D_no_mask_native (Array1D_native a) sc) as [H1 [H2 H3]].
+    repeat split; try assumption; rewrite pixel_scale_header_1d; reflexivity.
+Qed.
+
+Lemma tobool_tofloat_row (r : list bool) : map (@tobool RO) (map (@tofloat RO) r) = r.
+Proof. induction r as [|b r IH]; [reflexivity|]. cbn [map]. now rewrite tobool_tofloat, IH. Qed.
+Theorem Mask1D_hdu_roundtrip (m : @mask1d RO) : Mask1D_from_primary_hdu (Mask1D_hdu_for_output m) = FOk m.
+Proof.
+  unfold Mask1D_from_primary_hdu, Mask1D_hdu_for_output, hdu_for_output_from_1d. cbn [hhdr hdata].
+  rewrite pixel_scale_header_1d. cbn [hlookup hkey_eqb]. rewrite tobool_tofloat_row. now destruct m.
+Qed.
+Theorem Mask1D_output_is_to_fits (fs : fitsfs (T RO) (T RO)) (m : @mask1d RO) p ow :
+  Mask1D_output_to_fits fs m p ow = to_fits fs p ow [Mask1D_hdu_for_output m].
+Proof. reflexivity. Qed.
+Theorem Mask1D_file_roundtrip (fs : fitsfs (T RO) (T RO)) (m : @mask1d RO) p ow sc k :
+  fs_wf fs = true -> target_ok fs p = true -> fresh_or_overwrite fs p ow = true -> sole_index k = true ->
+  exists fs',
+    Mask1D_output_to_fits fs m p ow = (fs', None)
+    /\ Mask1D_from_fits fs' p sc k = FOk (mkmask1 (n_mask m) sc)
+    /\ (do h <- header_obj_from fs' p k; FOk (hlookup PIXSCALE h)) = FOk (Some (n_scale m)).
+Proof.
+  intros Hwf Hok Hfo Hk. rewrite Mask1D_output_is_to_fits.
+  destruct (to_fits_success fs p ow [Mask1D_hdu_for_output m] Hwf Hok Hfo) as [fs' [Hw [Hl _]]].
+  unfold Mask1D_hdu_for_output in Hl.
+  exists fs'. split; [exact Hw|].
+  destruct (via_fits_written_1d fs' p _ _ k Hl) as [Hv Hh]. unfold Mask1D_from_fits. rewrite Hv, Hh, Hk.
+  cbn [fbind]. rewrite tobool_tofloat_row, pixel_scale_header_1d. split; reflexivity.
 Qed.
